@@ -1,0 +1,49 @@
+//go:build verif
+
+// Contracts for the tvc verifier (/verif). Comment-only: with the `verif` tag off this file does not exist,
+// with it on it adds no code. Syntax: /verif/DESIGN.md appendix A.
+
+package ip
+
+//@ for C14 C12
+//@ filemode bv
+
+//@ # A subnet as net.ParseCIDR produces it: equal lengths 4/4 or 16/16, a contiguous prefix mask.
+//@ # (IPv4-mapped 16-byte networks "::ffff:a.b.c.d/n" are excluded: cloud vSwitch CIDRs are never written that way.)
+//@ pure func hostmask4(n net.IPNet) bv32 = ^be32(n.Mask)
+//@ pure func hostmask16(n net.IPNet) bv128 = ^be128(n.Mask)
+//@ pure func subnet4(n net.IPNet) bool = len(n.IP) == 4 && len(n.Mask) == 4 && (hostmask4(n) & (hostmask4(n) + 1)) == 0
+//@ pure func subnet16(n net.IPNet) bool = len(n.IP) == 16 && len(n.Mask) == 16 && !v4mapped(n.IP) && (hostmask16(n) & (hostmask16(n) + 1)) == 0
+//@ # last address of the subnet
+//@ pure func last4(n net.IPNet) bv32 = (be32(n.IP) & be32(n.Mask)) | hostmask4(n)
+//@ pure func last16(n net.IPNet) bv128 = (be128(n.IP) & be128(n.Mask)) | hostmask16(n)
+
+//@ func ipNetToRange
+//@   inline
+//@   loop 1 unroll 16
+
+//@ func GetIPAtIndex
+//@   requires subnet4(ipNet) || subnet16(ipNet)
+//@   requires index == -3
+//@   preserves all
+//@   case len(ipNet.IP) == 4
+//@   slowcase len(ipNet.IP) == 16
+//@   assume len(v4Mappedv6Prefix) == 12 && cap(v4Mappedv6Prefix) == 12 && (forall i in 0..9 :: v4Mappedv6Prefix[i] == 0) && v4Mappedv6Prefix[10] == 255 && v4Mappedv6Prefix[11] == 255
+//@   panics
+//@   # third-from-last address, or nil when the subnet has fewer than three addresses
+//@   ensures subnet4(ipNet) && hostmask4(ipNet) >= 2 ==> result != nil && len(result) == 4 && be32(result) == last4(ipNet) - 2
+//@   ensures subnet4(ipNet) && hostmask4(ipNet) < 2 ==> result == nil
+//@   ensures subnet16(ipNet) && hostmask16(ipNet) >= 2 ==> result != nil && len(result) == 16 && be128(result) == last16(ipNet) - 2
+//@   ensures subnet16(ipNet) && hostmask16(ipNet) < 2 ==> result == nil
+
+//@ func DeriveGatewayIP
+//@   # input assumption: the CIDR is not written in IPv4-mapped IPv6 notation ("::ffff:a.b.c.d/n")
+//@   assume cidrOK(cidr) && !cidrIs4(cidr) ==> (cidrNet16(cidr) >> 32) != 65535
+//@   # net.ParseCIDR rejects the empty string
+//@   assume !cidrOK("")
+//@   panics
+//@   ensures cidr == "" || !cidrOK(cidr) ==> result == ""
+//@   ensures cidrOK(cidr) && cidrIs4(cidr) && ^cidrMask4(cidr) < 2 ==> result == ""
+//@   ensures cidrOK(cidr) && cidrIs4(cidr) && ^cidrMask4(cidr) >= 2 ==> result == ipString4((cidrNet4(cidr) | ^cidrMask4(cidr)) - 2)
+//@   ensures cidrOK(cidr) && !cidrIs4(cidr) && ^cidrMask16(cidr) < 2 ==> result == ""
+//@   ensures cidrOK(cidr) && !cidrIs4(cidr) && ^cidrMask16(cidr) >= 2 ==> result == ipString16((cidrNet16(cidr) | ^cidrMask16(cidr)) - 2)
